@@ -76,6 +76,19 @@ CHECKS = {
         bounds=dict(quick="trees <= 4 points", thorough="trees <= 5 points"),
         assumptions=["vector literals are outside the property (they print without their type prefix)"],
     ),
+    "C12": dict(
+        families=lambda tier: [fam("sized"), fam("bounded")],
+        wall_cap=dict(quick=900, thorough=7200),
+        rule="deviation-bounded exhaustive exploration of RNG scripts (hooks H2/H3: every draw of the code generator is answered from a script; default answers a fixed sequence; a deviation replaces one answer by a value of a grid that yields EVERY outcome k of every gen_range(0..n), n <= 12, in one draw -- self-checked at start-up on this build of rand): random_code_with_size for n = 1..N x instruction list in {empty, [NOOP], two instructions, full registry} x bindings {0,1,2} x new-name probability {0,0.5,1}; random_code for bounds 0..M; decompose 1..M; CODE.RAND by NAME for INTEGER in {MIN,-100,-27,-9,-3,-1,0,1,2,3,9,26,100,MAX} x max-points {0,1,2,6,25,-25}. Oracle per run: exact size n by an independent point count / 1 <= size <= bound-1 / None below 2; size <= min(|n|,|max|); every leaf an instruction of the list (NOOP if empty), TRUE/FALSE, int, float in [0,1), name (bound if new names are disabled); parts positive summing to the request; each item executes (small lists) and prints/parses/prints stably; reachability of every leaf kind and list shape over the explored scripts",
+        bounds=dict(quick="N=7, M=8; <=1 deviation over the full grid (47 values), <=2 over a 5-value grid", thorough="N=10, M=10; <=2 full-grid deviations for n<=4, <=3 reduced for n<=5"),
+        assumptions=["joint effects of more than d deviating draws are not explored", "names produced by the `names` crate (its own rand 0.3) are opaque strings", "distributional claims (uniformity) are not decided; the property does not state them"],
+    ),
+    "C13": dict(
+        families=lambda tier: [fam("boolvec"), fam("vectors"), fam("instr")],
+        rule="same engine as C12 (all RNG scripts with a bounded number of deviations): random_bool_vector for size -1..N x sparsity in {0,.1,.25,.5,.75,.9,1,-.1,1.1,NaN,+-inf} (length, TRUE count within the documented rounding, EVERY position reachable as TRUE over the explored scripts, invalid parameters => no vector, no panic, no draw-horizon hit = no hang); random_int_vector size {-1,0,1,2,5} x (min,max) incl. equal, reversed, (MIN,MAX), (MAX-1,MAX) (length, all in [min,max)); random_float_vector size x (mean,sd) in {0,1,-1,inf,NaN}^2; INTEGER.RAND / FLOAT.RAND by NAME over configuration pairs incl. equal, reversed, (f32::MIN,f32::MAX), NaN, inf; BOOLEAN.RAND (both values reachable); NAME.RANDBOUNDNAME over 0..3 bindings (always a bound name, every bound name reachable); BOOLVECTOR/INTVECTOR/FLOATVECTOR.RAND by NAME (operand order, stack shapes)",
+        bounds=dict(quick="N=8; <=1 full-grid deviation, <=2 reduced", thorough="N=10; <=2 full-grid deviations"),
+        assumptions=["joint effects of more than d deviating draws are not explored"],
+    ),
     "C16": dict(
         families=lambda tier: [fam("int"), fam("item")],
         rule="explicit-state BFS to fixpoint over PushStack<i32> and PushStack<Item>: every reachable content of bounded size x every public operation x every position in [0,len+2], each compared (return value and contents) with a Vec whose index 0 is the top; non-trivial = transitions that change the container",
